@@ -39,6 +39,7 @@ type Engine struct {
 	unwind       int
 	stepBudget   int
 	maxPaths     int
+	mutSites     map[string]bool
 	harnessBudget time.Duration
 	solverKind   string
 	timeoutMs    int
@@ -48,6 +49,69 @@ type Engine struct {
 
 	omu         sync.Mutex
 	obligations map[string]int
+}
+
+// ---------- store-mutation call sites (C01): static inventory vs. sites actually executed ----------
+
+var mutMethods = map[string]bool{"Create": true, "Update": true, "Delete": true}
+
+// isKVInvoke: an interface method call of the library's KeyValue store interface that mutates the key
+func isKVInvoke(c *ssa.CallCommon) bool {
+	if !c.IsInvoke() || !mutMethods[c.Method.Name()] {
+		return false
+	}
+	n, ok := c.Value.Type().(*types.Named)
+	return ok && n.Obj().Name() == "KeyValue" && n.Obj().Pkg() != nil && n.Obj().Pkg().Path() == leaderPkg
+}
+
+func siteFn(fn *ssa.Function) string {
+	for fn.Parent() != nil {
+		fn = fn.Parent()
+	}
+	return fn.Name()
+}
+
+// staticMutationSites lists "<function>:<Method>" for every KeyValue.Create/Update/Delete call in library code.
+func (e *Engine) staticMutationSites() []string {
+	seen := map[string]bool{}
+	for fn := range ssautil.AllFunctions(e.prog) {
+		if fn.Pkg == nil || fn.Pkg.Pkg.Path() != leaderPkg || isHarnessFn(fn) {
+			continue
+		}
+		for _, b := range fn.Blocks {
+			for _, in := range b.Instrs {
+				if ci, ok := in.(ssa.CallInstruction); ok && isKVInvoke(ci.Common()) {
+					seen[siteFn(fn)+":"+ci.Common().Method.Name()] = true
+				}
+			}
+		}
+	}
+	var out []string
+	for k := range seen {
+		out = append(out, k)
+	}
+	sort.Strings(out)
+	return out
+}
+
+func (e *Engine) noteMutSite(s string) {
+	e.omu.Lock()
+	if e.mutSites == nil {
+		e.mutSites = map[string]bool{}
+	}
+	e.mutSites[s] = true
+	e.omu.Unlock()
+}
+
+func (e *Engine) executedMutationSites() []string {
+	e.omu.Lock()
+	defer e.omu.Unlock()
+	var out []string
+	for k := range e.mutSites {
+		out = append(out, k)
+	}
+	sort.Strings(out)
+	return out
 }
 
 func (e *Engine) noteObligation(id string) {
